@@ -208,3 +208,31 @@ def extra_checks(rng, tier, g, info):
                                det.get("status"), hit[:24]))
                     break
     info["paranoia_cli_file_targets"] = n
+    # --paranoia at EVERY position of the command line and in every spelling argparse may or may not take (behind the
+    # sub-command, behind its argument, abbreviated, with a value, doubled, behind "--"): the run either refuses or
+    # filters — a run that was asked for paranoia in any of these ways never shows a secret
+    m = 0
+    base = ["from-bip39-seed", SEED]
+    opts = [["--account", "1", "--interval", "0", "2"], []]
+    spellings = ["--paranoia", "--par", "--paranoi", "--paranoia=1", "--paranoia=true", "-paranoia", "--PARANOIA", "--p"]
+    for sp in (spellings if tier == "thorough" else spellings[:2] + rng.sample(spellings[2:], 3)):
+        for extra in opts:
+            for pos in range(len(extra) + len(base) + 1):
+                argv = extra + base
+                argv = argv[:pos] + [sp] + argv[pos:]
+                variants = [argv]
+                if sp == "--paranoia" and pos == 0:
+                    variants += [["--paranoia"] + argv, extra + ["--"] + base + ["--paranoia"],
+                                 ["--file", "@F"] + argv[1:] + ["--paranoia"]]
+                for av in variants:
+                    for fsk in (("absent",) if "@F" in av or rng.random() < 0.7 else ("file",)):
+                        canon, det = impl.cli_run(fsk, bytes(40), av)
+                        m += 1
+                        for tx in (det.get("stdout") or "", det.get("created") or ""):
+                            hit = next((s_ for s_ in secrets if s_ in tx), None)
+                            if hit:
+                                yield ("cli %s %s %s" % (fsk, hx(bytes(40)), ",".join(sx(a) for a in av)),
+                                       "a run given %s (exit status %s) printed / wrote a secret of the wallet: %s..." % (
+                                           sp, det.get("status"), hit[:24]))
+                                return
+    info["paranoia_option_placements"] = m
